@@ -129,11 +129,47 @@ def _model_inputs(c, m):
     return out
 
 
-def _check(formulas, timeout_s):
+def _vars(f, cache={}):
+    """ids of the uninterpreted constants of a formula (cached by ast id; the ast is kept alive by the caller)"""
+    out, stack, seen = set(), [f], set()
+    while stack:
+        e = stack.pop()
+        i = e.get_id()
+        if i in seen:
+            continue
+        seen.add(i)
+        if z3.is_const(e):
+            if e.decl().kind() == z3.Z3_OP_UNINTERPRETED:
+                out.add(i)
+            continue
+        stack.extend(e.children())
+    return out
+
+
+def _slices(base, goal, levels=(1, 2)):
+    """cone-of-influence relaxations of `base` around `goal`: formulas within k hops (shared variables) of the
+    goal, closed under 'all variables inside the cone'.  A relaxation being unsat proves the full query unsat."""
+    vs = [(_vars(f), f) for f in base]
+    V = _vars(goal)
+    out = []
+    for k in range(max(levels)):
+        grow = set(V)
+        for fv, f in vs:
+            if fv & V:
+                grow |= fv
+        V = grow
+        if k + 1 in levels:
+            sl = [f for fv, f in vs if fv and fv <= V]
+            if len(sl) < len(base):
+                out.append(sl)
+    return out
+
+
+def _solve(formulas, timeout_s):
     """one fresh solver per query (the tactic pipeline is only used non-incrementally)"""
     t0 = time.time()
     s = z3.Solver()
-    s.set('timeout', int(timeout_s * 1000))
+    s.set('timeout', max(1, int(timeout_s * 1000)))
     s.add(*formulas)
     r = str(s.check())
     model = s.model() if r == 'sat' else None
@@ -141,7 +177,7 @@ def _check(formulas, timeout_s):
         # quick give-up of the default pipeline: try nlsat explicitly
         try:
             s2 = z3.Tactic('qfnra-nlsat').solver()
-            s2.set('timeout', int(max(1.0, timeout_s - (time.time() - t0)) * 1000))
+            s2.set('timeout', max(1, int(max(1.0, timeout_s - (time.time() - t0)) * 1000)))
             s2.add(*formulas)
             r2 = str(s2.check())
             if r2 != 'unknown':
@@ -149,6 +185,20 @@ def _check(formulas, timeout_s):
                 model = s2.model() if r == 'sat' else None
         except z3.Z3Exception:
             pass
+    return r, model
+
+
+def _check(formulas, timeout_s, goal=None):
+    """decide `formulas` (+ goal).  With a goal, cone-of-influence relaxations are tried first: their `unsat`
+    is an `unsat` of the full query (fewer variables -> nlsat decides in ms what it cannot with all of them)."""
+    t0 = time.time()
+    if goal is not None:
+        for sl in _slices(formulas, goal):
+            r, _ = _solve(sl + [goal], min(5.0, timeout_s / 4))
+            if r == 'unsat':
+                return 'unsat', None, time.time() - t0
+        formulas = list(formulas) + [goal]
+    r, model = _solve(formulas, max(1.0, timeout_s - (time.time() - t0)))
     return r, model, time.time() - t0
 
 
@@ -171,18 +221,18 @@ def _solve_obligation(c, base, feas, feas_inputs, i, ob, timeout_s, conn):
     how = 'exact'
     t0 = time.time()
     if pair is not None and c.rules:
-        ncond, zero = normalize_eq(c.rules, pair[0], pair[1])
+        ncond, zero = normalize_eq(c.rules, pair[0], pair[1], recips=c.recips)
         if ncond is not None:
             how = 'exact+nf'
             cond = ncond
-            if pair[2] is not None and not zero:
+            if pair[2] is not None and not zero and not c.recips:
                 d = ncond.arg(0)
                 relaxed = z3.And(d <= pair[2], -d <= pair[2])
     tn = time.time() - t0
-    r, model, dt = _check(base + [z3.Not(cond)], timeout_s)
+    r, model, dt = _check(base, timeout_s, goal=z3.Not(cond))
     res = dict(kind=kind, label=label, result=r, time=dt + tn, how=how)
     if r != 'unsat' and relaxed is not None:
-        r2, model2, dt2 = _check(base + [z3.Not(relaxed)], timeout_s)
+        r2, model2, dt2 = _check(base, timeout_s, goal=z3.Not(relaxed))
         res.update(result=r2, time=dt + dt2 + tn, how='tolerance', exact=r)
         if r2 == 'sat':
             model = model2
@@ -201,7 +251,20 @@ def solve_path(claim, decisions, only, timeout_s, conn):
     c, h, status, info = run_path(claim, decisions)
     base = list(c.assumptions) + list(c.path)
     conn.send(('start', 'feas'))
-    r, model, dt = _check(base, timeout_s)
+    # infeasible paths are usually refuted by their last decision plus a few assumptions: slice around it
+    r = None
+    t0 = time.time()
+    for k in range(len(c.path) - 1, -1, -1):
+        rest = list(c.assumptions) + list(c.path[:k]) + list(c.path[k + 1:])
+        for sl in _slices(rest, c.path[k]):
+            if _solve(sl + [c.path[k]], 2.0)[0] == 'unsat':
+                r, model, dt = 'unsat', None, time.time() - t0
+                break
+        if r is not None or time.time() - t0 > timeout_s:
+            break
+    if r is None:
+        r, model, dt = _check(base, timeout_s)
+        dt += time.time() - t0
     feas = r
     msg = dict(kind='feas', result=r, time=dt, status=status, info=info, nassume=len(c.assumptions), npath=len(c.path),
                notes=[str(n)[:160] for n in c.notes[:6]])
